@@ -354,3 +354,162 @@ fn cached_m(ctx: &BuildContext<B>, name: &LayerName, build: bool, launch: bool, 
         ),
     }
 }
+
+// ------------------------------------------------------------------------------------------------ trait API
+#[allow(deprecated)]
+mod trait_layer {
+    use super::*;
+    use libcnb::data::layer_content_metadata::LayerTypes;
+    use libcnb::layer::{ExistingLayerStrategy, Layer, LayerData, LayerResult, LayerResultBuilder, MetadataMigration};
+
+    pub struct Scripted<'a> {
+        pub types: LayerTypes,
+        pub script: &'a RefCell<Vec<Value>>,
+        pub log: &'a RefCell<Vec<Value>>,
+        pub root: PathBuf,
+    }
+
+    impl Scripted<'_> {
+        fn next(&self, cb: &str) -> Value {
+            let mut s = self.script.borrow_mut();
+            if s.is_empty() {
+                return json!({"cb": cb, "answer": "script-exhausted"});
+            }
+            s.remove(0)
+        }
+
+        fn result(&self, e: &Value, which: &str) -> Result<LayerResult<M>, String> {
+            let shape = e["answer"].as_str().unwrap_or("bare");
+            if shape == "Err" || shape == "script-exhausted" {
+                return Err("cb-error".to_string());
+            }
+            let mut b = LayerResultBuilder::new(M { v: if which == "create" { "id500".into() } else { "id600".into() } });
+            let scope = match shape {
+                "env-all" => Some(Scope::All),
+                "env-build" => Some(Scope::Build),
+                "env-launch" | "full" => Some(Scope::Launch),
+                "env-web" => Some(Scope::Process("web".into())),
+                _ => None,
+            };
+            if let Some(sc) = scope {
+                let mut env = LayerEnv::new();
+                env.insert(sc, ModificationBehavior::Override, "X", e["value"].as_str().unwrap_or(""));
+                b = b.env(env);
+            }
+            if shape == "full" {
+                b = b.exec_d_program("p2", self.root.join("src/prog")).sbom(Sbom { format: libcnb::data::sbom::SbomFormat::CycloneDxJson, data: b"new-cdx".to_vec() });
+            }
+            if shape == "execd-missing" {
+                b = b.exec_d_program("p2", self.root.join("src/missing"));
+            }
+            b.build()
+        }
+    }
+
+    impl Layer for Scripted<'_> {
+        type Buildpack = B;
+        type Metadata = M;
+
+        fn types(&self) -> LayerTypes {
+            self.types
+        }
+
+        fn create(&mut self, _c: &BuildContext<B>, layer_path: &Path) -> Result<LayerResult<M>, String> {
+            self.log.borrow_mut().push(json!({"cb": "create", "path": layer_path.strip_prefix(&self.root).unwrap().to_string_lossy()}));
+            let e = self.next("create");
+            self.result(&e, "create")
+        }
+
+        fn existing_layer_strategy(&mut self, c: &BuildContext<B>, ld: &LayerData<M>) -> Result<ExistingLayerStrategy, String> {
+            self.log.borrow_mut().push(json!({"cb": "strategy", "meta": ld.content_metadata.metadata.v}));
+            let e = self.next("strategy");
+            match e["answer"].as_str().unwrap_or("") {
+                "Keep" => Ok(ExistingLayerStrategy::Keep),
+                "Update" => Ok(ExistingLayerStrategy::Update),
+                "Recreate" => Ok(ExistingLayerStrategy::Recreate),
+                "default" => DefaultLayer { types: self.types }.existing_layer_strategy(c, ld),
+                _ => Err("cb-error".to_string()),
+            }
+        }
+
+        fn update(&mut self, c: &BuildContext<B>, ld: &LayerData<M>) -> Result<LayerResult<M>, String> {
+            self.log.borrow_mut().push(json!({"cb": "update", "meta": ld.content_metadata.metadata.v}));
+            let e = self.next("update");
+            if e["answer"].as_str() == Some("default") {
+                return DefaultLayer { types: self.types }.update(c, ld);
+            }
+            self.result(&e, "update")
+        }
+
+        fn migrate_incompatible_metadata(&mut self, c: &BuildContext<B>, m: &GenericMetadata) -> Result<MetadataMigration<M>, String> {
+            self.log.borrow_mut().push(json!({"cb": "migrate", "meta": serde_json::to_value(m).unwrap()}));
+            let e = self.next("migrate");
+            match e["answer"].as_str().unwrap_or("") {
+                "RecreateLayer" => Ok(MetadataMigration::RecreateLayer),
+                "ReplaceMetadata" => Ok(MetadataMigration::ReplaceMetadata(M { v: "id77".into() })),
+                "default" => DefaultLayer { types: self.types }.migrate_incompatible_metadata(c, m),
+                _ => Err("cb-error".to_string()),
+            }
+        }
+    }
+
+    /// only `types` and `create` implemented: gives access to the trait's default methods
+    pub struct DefaultLayer {
+        pub types: LayerTypes,
+    }
+
+    impl Layer for DefaultLayer {
+        type Buildpack = B;
+        type Metadata = M;
+        fn types(&self) -> LayerTypes {
+            self.types
+        }
+        fn create(&mut self, _c: &BuildContext<B>, _p: &Path) -> Result<LayerResult<M>, String> {
+            unreachable!()
+        }
+    }
+
+    pub fn run(req: &Value) -> Value {
+        let tmp = tempfile::tempdir().unwrap();
+        let root = tmp.path();
+        build_tree(root, &req["tree"]);
+        let layers = root.join("L");
+        std::fs::create_dir_all(&layers).unwrap();
+        let ctx = build_context(&layers);
+        let name: LayerName = "n1".parse().unwrap();
+        let script = RefCell::new(req["script"].as_array().cloned().unwrap_or_default());
+        let log = RefCell::new(vec![]);
+        let t = &req["types"];
+        let types = LayerTypes { launch: t["launch"].as_bool().unwrap_or(false), build: t["build"].as_bool().unwrap_or(false), cache: t["cache"].as_bool().unwrap_or(false) };
+        let layer = Scripted { types, script: &script, log: &log, root: root.to_path_buf() };
+        let r = ctx.handle_layer(name, layer);
+        let scopes = [("all", Scope::All), ("build", Scope::Build), ("launch", Scope::Launch), ("web", Scope::Process("web".into()))];
+        let env_view = |e: &LayerEnv| -> Value {
+            let mut m = serde_json::Map::new();
+            for (n, sc) in &scopes {
+                let applied = e.apply_to_empty(sc.clone());
+                let mut kv: Vec<(String, String)> = applied.iter().map(|(k, v)| (k.to_string_lossy().to_string(), v.to_string_lossy().to_string())).collect();
+                kv.sort();
+                m.insert((*n).to_string(), json!(kv));
+            }
+            Value::Object(m)
+        };
+        let (result, returned_env) = match &r {
+            Ok(d) => ("Ok".to_string(), Some(env_view(&d.env))),
+            Err(e) => (err_str(e), None),
+        };
+        let disk_env = LayerEnv::read_from_layer_dir(layers.join("n1")).ok().map(|e| env_view(&e));
+        json!({
+            "result": result,
+            "log": Value::Array(log.borrow().clone()),
+            "toml": toml_view(&layers.join("n1.toml")),
+            "returned_env": returned_env,
+            "disk_env": if r.is_ok() { disk_env } else { None },
+            "tree": snapshot(root),
+        })
+    }
+}
+
+pub fn layer_trait(req: &Value) -> Value {
+    trait_layer::run(req)
+}
